@@ -21,6 +21,7 @@ var (
 	ctyTypeT  = reflect.TypeOf(cty.Type{})
 	ctyValueT = reflect.TypeOf(cty.Value{})
 	hclPosT   = reflect.TypeOf(hcl.Pos{})
+	hclRangeT = reflect.TypeOf(hcl.Range{})
 	errorT    = reflect.TypeOf((*error)(nil)).Elem()
 )
 
@@ -29,8 +30,10 @@ type Options struct {
 	// CapScan includes the region between len and cap of every slice (C04:
 	// an append into caller-owned spare capacity must be visible).
 	CapScan bool
-	// PosMap rewrites every hcl.Pos before it is rendered (C18).
+	// PosMap rewrites every hcl.Pos outside of a range before it is rendered (C18).
 	PosMap func(hcl.Pos) hcl.Pos
+	// RangeMap rewrites every hcl.Range (file aware) before it is rendered (C18).
+	RangeMap func(hcl.Range) hcl.Range
 	// FuncIdentity renders funcs by code pointer (same process comparisons);
 	// otherwise only nil / non-nil.
 	FuncIdentity bool
@@ -118,7 +121,19 @@ func (d *dumper) dump(v reflect.Value) {
 			}
 			return
 		}
+	case hclRangeT:
+		if d.o.RangeMap != nil {
+			r := hcl.Range{Filename: v.Field(0).String(), Start: posOf(v.Field(1)), End: posOf(v.Field(2))}
+			r = d.o.RangeMap(r)
+			d.p("Range(%q,%d,%d,%d-%d,%d,%d)", r.Filename, r.Start.Line, r.Start.Column, r.Start.Byte, r.End.Line, r.End.Column, r.End.Byte)
+			return
+		}
 	case hclPosT:
+		if d.o.PosMap != nil {
+			p := d.o.PosMap(posOf(v))
+			d.p("Pos(%d,%d,%d)", p.Line, p.Column, p.Byte)
+			return
+		}
 		if a := access(v); a.CanInterface() {
 			p := a.Interface().(hcl.Pos)
 			if d.o.PosMap != nil {
@@ -278,6 +293,10 @@ func (d *dumper) dump(v reflect.Value) {
 	default:
 		d.p("?%s", v.Kind())
 	}
+}
+
+func posOf(v reflect.Value) hcl.Pos {
+	return hcl.Pos{Line: int(v.Field(0).Int()), Column: int(v.Field(1).Int()), Byte: int(v.Field(2).Int())}
 }
 
 func reslice(v reflect.Value) (out reflect.Value) {
